@@ -156,6 +156,9 @@ macro_rules! selem_int { ($t:ty, $name:expr) => { impl SElem for $t { const NAME
 selem_int!(i32, "i32");
 selem_int!(i64, "i64");
 selem_int!(u32, "u32");
+selem_int!(u8, "u8");
+selem_int!(u16, "u16");
+selem_int!(i16, "i16");
 impl SElem for N64 {
     const NAME: &'static str = "n64";
     const IS_FLOAT: bool = true;
@@ -298,6 +301,7 @@ pub fn run(case: &Value, _params: &Params, out: &mut Vec<Value>) {
         "grid" => with_helem!(ty, grid_ev, case, out),
         "index" => with_helem!(ty, index_ev, case, out),
         "strategy" => match ty { "i32" => strategy_ev::<i32>(case, out), "i64" => strategy_ev::<i64>(case, out), "u32" => strategy_ev::<u32>(case, out),
+                                  "u8" => strategy_ev::<u8>(case, out), "u16" => strategy_ev::<u16>(case, out), "i16" => strategy_ev::<i16>(case, out),
                                   "n64" => strategy_ev::<N64>(case, out), t => panic!("strategy type {t}") },
         _ => panic!("unknown hist event {ev}"),
     }
@@ -369,7 +373,22 @@ pub fn gen(seed: u64, count: usize, tier: &str, params: &Params) -> Vec<Value> {
                 cases.push(json!({"ev": "gridbuilder", "ty": sty, "strat": *rng.pick(&["sqrt", "rice", "sturges", "fd", "auto"]), "mode": mode, "cols": cols, "lay": lay.to_json()}));
             }
             _ => {
-                // strategies
+                // strategies on narrow integer types whose data reach into the upper half of the range, inside the property's
+                // domain: the last edge (at most max + width) is representable.  Bin counts by the documented formulas.
+                if rng.chance(1, 6) {
+                    let (sty, tmax): (&str, i64) = *rng.pick(&[("u8", 255i64), ("u16", 65535), ("i16", 32767)]);
+                    let strat = *rng.pick(&["sqrt", "rice", "sturges"]);
+                    let n = rng.range(4, 60);
+                    let k = match strat { "sqrt" => (n as f64).sqrt().round(), "rice" => (2.0 * (n as f64).cbrt()).round(), _ => ((n as f64).log2() + 1.0).round() } as i64;
+                    let a = rng.range(tmax / 8, tmax / 2);
+                    let b = rng.range(a + tmax / 4, tmax - tmax / 16);
+                    let w = (b - a) / k.max(1);
+                    if w == 0 || b + w + 1 > tmax { continue; }
+                    let mut data: Vec<i64> = (0..n).map(|_| rng.range(a, b)).collect();
+                    data[0] = a; data[1] = b;
+                    cases.push(json!({"ev": "strategy", "ty": sty, "strat": strat, "mode": "int", "data": data}));
+                    continue;
+                }
                 let sty = *rng.pick(&["i32", "i64", "u32", "n64", "n64"]);
                 let strat = *rng.pick(&["sqrt", "rice", "sturges", "fd", "auto"]);
                 let big = tier == "thorough" && rng.chance(1, 10);
